@@ -30,6 +30,7 @@ pub mod httppages;
 pub mod ribmetrics;
 pub mod rotorib;
 pub mod reconfunits;
+pub mod vribquery;
 
 /// A pause-point handler installed per thread by a harness.
 pub type PointFn = Arc<dyn Fn(&'static str) + Send + Sync>;
